@@ -153,6 +153,20 @@ func genC07iPlan(r *zsim.Rng) *c07iPlan {
 			p.Query = "#" + strconv.Itoa(r.Intn(p.NLines+1))
 		}
 	}
+	if (p.Select1 || p.Exit0) && r.Chance(1, 2) {
+		// the start-up short cut must wait for the whole input: many records arriving in pieces, the
+		// deciding record near the end
+		p.NLines = r.Range(60, 450)
+		for i := r.Range(2, 8); i > 0; i-- {
+			p.Reads = append(p.Reads, []int{1, r.Range(1, 40), r.Range(10, 400), r.Range(100, 3000)}[r.Intn(4)])
+			p.GapsMs = append(p.GapsMs, []int{0, 1, 5, 20, 60, 150}[r.Intn(6)])
+		}
+		p.Query = "#" + strconv.Itoa(p.NLines-1-r.Intn(3))
+		if r.Chance(1, 4) {
+			p.Query = "#" + strconv.Itoa(p.NLines+5) // matches nothing
+		}
+		p.NumCPU = r.Intn(5)
+	}
 	if r.Chance(1, 2) {
 		p.Multi = -1
 	}
